@@ -15,15 +15,19 @@ from vlib.ref import workflow as RW
 
 
 class Observation:
+    """What one run showed (plain data: the run itself happens in a forked child)."""
+
     def __init__(self):
-        self.result = None          # pydra Result or None
-        self.exception = None       # exception raised by the submission
+        self.errored = False        # the submission returned an errored result
+        self.exception = None       # "TypeName: message" if the submission raised
+        self.exception_type = None
+        self.error_text = ""        # everything pydra reported about the failure
         self.events = []            # gate log
         self.max_blocked = 0
         self.releases = []
         self.settle_timeouts = 0
         self.outputs = None         # normalised workflow outputs (or None)
-        self.cache_root = None
+        self.timed_out = False      # the child did not finish within the watchdog (inconclusive)
 
 
 def precache_program(prog, m):
@@ -38,15 +42,77 @@ def precache_program(prog, m):
                 outs=[nodes[-1]["name"]], wf_split=None)
 
 
+WATCHDOG_S = 240
+
+
 def run_case(case, d) -> Observation:
+    """Runs the case in a forked child under a wall-clock watchdog.  A child that does not finish
+    is killed with everything it started and reported as `timed_out` (inconclusive here: C18 owns
+    termination)."""
+    import json
+    import signal
+    import time
+
+    d = Path(d)
+    d.mkdir(parents=True, exist_ok=True)
+    out = d / "observation.json"
+    pid = os.fork()
+    if pid == 0:
+        code = 0
+        try:
+            os.setsid()
+            data = _run_case_child(case, d)
+            out.write_text(json.dumps(data, default=repr))
+        except BaseException:  # noqa
+            import traceback
+
+            out.write_text(json.dumps(dict(child_crash=traceback.format_exc()[-3000:])))
+            code = 3
+        finally:
+            os._exit(code)
+    t0 = time.time()
+    done = False
+    while time.time() - t0 < WATCHDOG_S:
+        r, _ = os.waitpid(pid, os.WNOHANG)
+        if r:
+            done = True
+            break
+        time.sleep(0.02)
+    obs = Observation()
+    if not done:
+        try:
+            os.killpg(pid, signal.SIGKILL)
+        except ProcessLookupError:
+            pass
+        os.waitpid(pid, 0)
+        obs.timed_out = True
+    else:
+        try:  # whatever the child's pool left behind
+            os.killpg(pid, signal.SIGKILL)
+        except (ProcessLookupError, PermissionError):
+            pass
+    gate = d / "gate"
+    if out.exists():
+        data = json.loads(out.read_text())
+        if "child_crash" in data:
+            from vlib.harness import HarnessError
+
+            raise HarnessError("schedule case child crashed: " + data["child_crash"])
+        for k, v in data.items():
+            setattr(obs, k, v)
+        obs.releases = [tuple(r) for r in obs.releases]
+    obs.events = sched.read_log(gate)
+    return obs
+
+
+def _run_case_child(case, d):
     from pydra.engine.submitter import Submitter
 
     prog = case["prog"]
-    d = Path(d)
-    obs = Observation()
+    data = dict(errored=False, exception=None, exception_type=None, error_text="", max_blocked=0,
+                releases=[], settle_timeouts=0, outputs=None)
     cache = d / "cache"
     cache.mkdir(parents=True, exist_ok=True)
-    obs.cache_root = cache
     if case.get("precache"):
         pre = precache_program(prog, case["precache"])
         os.environ.pop("VERIF_GATE", None)
@@ -58,7 +124,7 @@ def run_case(case, d) -> Observation:
     if worker == "sched":
         res, w = sched.run_scheduled(task, cache, gate, case.get("choices") or [],
                                      max_concurrent=case.get("k"), n_procs=case.get("n_procs", 12))
-        obs.max_blocked, obs.releases, obs.settle_timeouts = w.max_blocked, list(w.releases), w.settle_timeouts
+        data.update(max_blocked=w.max_blocked, releases=list(w.releases), settle_timeouts=w.settle_timeouts)
     else:
         open(os.path.join(gate, "free"), "w").close()
         os.environ["VERIF_GATE"] = gate
@@ -75,17 +141,30 @@ def run_case(case, d) -> Observation:
                 res = e
         finally:
             os.environ.pop("VERIF_GATE", None)
+    parts = []
     if isinstance(res, Exception):
-        obs.exception = res
+        data["exception"] = f"{type(res).__name__}: {res}"[:2000]
+        data["exception_type"] = type(res).__name__
+        parts.append(str(res))
+        parts.extend(getattr(res, "__notes__", []) or [])
     else:
-        obs.result = res
-        if not res.errored and res.outputs is not None:
+        data["errored"] = bool(res.errored)
+        if res.errored:
             try:
-                obs.outputs = G.outputs_of(prog, res.outputs)
+                errs = res.errors
+                if errs:
+                    parts.append("\n".join(map(str, errs.get("error message", [])))
+                                 if isinstance(errs, dict) else str(errs))
             except Exception as e:  # noqa
-                obs.exception = e
-    obs.events = sched.read_log(gate)
-    return obs
+                parts.append(f"<unreadable error file: {e}>")
+        elif res.outputs is not None:
+            try:
+                data["outputs"] = G.outputs_of(prog, res.outputs)
+            except Exception as e:  # noqa
+                data["exception"] = f"{type(e).__name__}: {e}"
+                data["exception_type"] = type(e).__name__
+    data["error_text"] = "\n".join(parts)[-6000:]
+    return data
 
 
 def expected_jobs(prog):
